@@ -229,7 +229,8 @@ class PathEval(object):
     MAXSTATES = 20000
 
     def __init__(self, program, func, env, is_effect=None, pure=PURE, depth=0, fail_value=None, memo=None, maxstates=None, through_effects=False, dirty_paths=False,
-                 call_values=None, markers=None, observe=None, split=None, starts=None, track=None, exact_counters=False):
+                 call_values=None, markers=None, observe=None, split=None, starts=None, track=None, exact_counters=False, observe_callees=False):
+        self.observe_callees = observe_callees   # also report elements reached inside evaluated callees (helpers)
         self.exact_counters = exact_counters   # compute ++/--/+= on known values instead of widening them (bounded explorations only)
         self.track = track                 # optional set of lvalue keys whose constants are kept (others are treated as unknown: fewer states, more paths)
         self.starts = starts               # optional list of additional entry environments explored in the SAME run (shared state set)
@@ -302,7 +303,8 @@ class PathEval(object):
             return self.memo[key]
         self.memo[key] = None      # recursion guard
         try:
-            sub = PathEval(self.P, g, genv, self.custom_effect, self.pure, self.depth + 1, None, self.memo, maxstates=3000, through_effects=True)
+            sub = PathEval(self.P, g, genv, self.custom_effect, self.pure, self.depth + 1, None, self.memo, maxstates=3000, through_effects=True,
+                           observe=self.observe if self.observe_callees else None, call_values=self.call_values)
             out = sub.run()
         except AnalysisBroken:
             return None
